@@ -17,6 +17,7 @@ double nondet_double(void);
 binson_type nondet_type(void);
 
 size_t vc_k, vc_j, vc_memcmp_idx, vc_cstr_max;
+int64_t vc_wit_i64; int vc_wit_flag;      /* copies of the inputs for the native replay */
 int vc_memcmp_result; size_t vc_memcmp_n; const void *vc_memcmp_a, *vc_memcmp_b; size_t vc_strlen_result;
 
 #define H_END()    __CPROVER_assert(0, "vacuity control: harness end reachable under the precondition")
@@ -60,7 +61,8 @@ void h__int_pack_size(void)
 {
     uint8_t *b = malloc(9);
     __CPROVER_assume(b != NULL);
-    _int_pack_size(nondet_i64(), b, nondet_bool());
+    vc_wit_i64 = nondet_i64(); vc_wit_flag = nondet_bool();
+    _int_pack_size(vc_wit_i64, b, vc_wit_flag);
     H_END();
 }
 
